@@ -59,8 +59,15 @@ ListNew(W, S, ev) ==
     [] ev.op = "l_setitem" -> [cur EXCEPT ![ev.i + 1] = ws[1]]
 ListEffect(W, S, ev) == [S EXCEPT !.lists[ev.p] = ListNew(W, S, ev)]
 
+\* randomize(): random cells take whatever the library produced (read through the primary view: get_val for
+\* scalars, indexing for lists) - every other view must then agree with it and it must be in type; non-random cells stay
+RandEffect(W, S, ev) ==
+  [cells |-> [p \in DOMAIN S.cells |-> IF W.cells[p].rand THEN ev.reads[p].get_val ELSE S.cells[p]],
+   lists |-> [p \in DOMAIN S.lists |-> IF W.lists[p].rand THEN ev.lreads[p].index ELSE S.lists[p]]]
+
 Effect(W, S, ev) ==
   CASE ev.op = "init"  -> InitEffect(W, S, ev)
+    [] ev.op = "randomize" -> RandEffect(W, S, ev)
     [] ev.op = "write" -> WriteEffect(W, S, ev)
     [] ev.op = "part_write" -> PartWriteEffect(W, S, ev)
     [] ev.op \in {"l_append", "l_extend", "l_assign", "l_clear", "l_setitem"} -> ListEffect(W, S, ev)
@@ -68,6 +75,7 @@ Effect(W, S, ev) ==
 
 Guard(W, S, ev) ==
   CASE ev.op = "init"  -> S = EmptyState
+    [] ev.op = "randomize" -> TRUE
     [] ev.op = "write" -> ev.p \in DOMAIN S.cells
     [] ev.op = "part_write" -> ev.p \in DOMAIN S.cells /\ 0 <= ev.lo /\ ev.lo <= ev.hi /\ ev.hi < W.cells[ev.p].w
     [] ev.op = "part_read"  -> ev.p \in DOMAIN S.cells /\ 0 <= ev.lo /\ ev.lo <= ev.hi /\ ev.hi < W.cells[ev.p].w
@@ -81,5 +89,6 @@ Clauses(W, S, ev) ==
   [ no_exception    |-> ev.exc = "none",
     all_reads_agree |-> ReadsAgree(W, T, ev),                                   \* every access path, same value
     always_in_type  |-> InType(W, T),
+    fixed_list_keeps_length |-> ev.op = "randomize" => \A p \in DOMAIN S.lists : Len(T.lists[p]) = Len(S.lists[p]),
     part_read_bits  |-> ev.op = "part_read" => ev.got = Slice(S.cells[ev.p], ev.hi, ev.lo) ]
 =============================================================================
